@@ -50,8 +50,10 @@ theorem C02_complete_is_success (src : Bytes) (s : State) (now : Nat) (m : Meta)
     · cases hfs'
     · split at hfs'
       · cases hfs'
-      · cases hfs'
-        exact Fs.get_set_self _ _ _
+      · split at hfs'
+        · cases hfs'
+        · cases hfs'
+          exact Fs.get_set_self _ _ _
   have hA : isFileTransfer { s with delivery := DeliveryCode.Complete } = true := hift
   have hv : verifyStage { s with delivery := DeliveryCode.Complete } now
       = ({ s with delivery := DeliveryCode.Complete, tempFile := some src }, true) := by
